@@ -223,9 +223,72 @@ def containers_of(doc):
     return out
 
 
+# -- terms that need escaping, through the Processor -------------------------
+ESC_VALUES = ["a.b", "a b", "x/y", "a]b", "a[b", "p(q", "it's", 'say "x"',
+              "a\\b", "plain", "a.bc", " lead", "=x", "a=b", "!z", "a,b"]
+
+
+def check_escaped_terms(res):
+    """The term written in a path (escaped or quoted as the syntax requires)
+    is compared as the text it stands for: over a list of strings that hold
+    path-special characters, each text operator selects exactly the members
+    the reference table selects for the raw term."""
+    from vp.model import pathast
+    from vp.model.compare import match, Unspecified
+    from yamlpath.exceptions import YAMLPathException
+    text = "l:\n" + "".join("  - %s\n" % gdocs.scalar_text(v, quote=True)
+                            for v in ESC_VALUES)
+    doc, ok = gdocs.load(text)
+    if not ok or [str(x) for x in doc["l"]] != ESC_VALUES:
+        raise RuntimeError("escaped-term document does not load as written")
+    proc = real.processor(doc)
+    for method in ("EQUALS", "STARTS_WITH", "ENDS_WITH", "CONTAINS"):
+        for term in ESC_VALUES + ["a", "b", ".", " "]:
+            try:
+                want = [v for v in ESC_VALUES if match(method, term, v)]
+            except Unspecified:
+                res.label("escaped-term:unspecified")
+                continue
+            for inverted in (False, True):
+                exp = [v for v in ESC_VALUES if v not in want] if inverted \
+                    else want
+                for sep in "./":
+                    for style in range(5):
+                        ptext = pathast.write_path(
+                            [("key", "l"),
+                             ("search", inverted, method, ".", term)],
+                            sep, style)
+                        res.evaluations += 1
+                        case = {"doc": text, "path": ptext, "term": term,
+                                "escaped-term": True}
+                        try:
+                            got = [str(n.node) for n in proc.get_nodes(
+                                real.ypath(ptext), mustexist=False)]
+                        except YAMLPathException as exc:
+                            res.fail({"clause": "escaped-term-selects-by-its-"
+                                      "text", "method": method,
+                                      "why": "YAMLPathException"}, case,
+                                     "%s" % exc)
+                            continue
+                        except Exception as exc:
+                            res.label("escaped-term:crash(see C15):"
+                                      + type(exc).__name__)
+                            continue
+                        if got != exp:
+                            res.fail({"clause": "escaped-term-selects-by-its-"
+                                      "text", "method": method,
+                                      "inverted": inverted,
+                                      "why": "different-selection"}, case,
+                                     "expected %r got %r" % (exp, got))
+                            continue
+                        if exp and len(exp) < len(ESC_VALUES):
+                            res.nontrivial(key=["esc", ptext], sample=False)
+                        res.label("escaped-term-checked")
+
+
 # -- planning ----------------------------------------------------------------
 def plan(tier, seed):
-    shards = []
+    shards = [{"kind": "escterm"}]
     for m in METHODS:
         shards.append({"kind": "grid", "method": m})
     nsh = 24
@@ -246,7 +309,9 @@ def plan(tier, seed):
 def run_shard(shard):
     res = Result()
     dl = Deadline(shard.get("budget_s"))
-    if shard["kind"] == "grid":
+    if shard["kind"] == "escterm":
+        check_escaped_terms(res)
+    elif shard["kind"] == "grid":
         hays = load_haystacks()
         for hay in hays:
             for needle in NEEDLES:
@@ -307,6 +372,9 @@ def _run_hyp(shard, res, dl):
 
 def replay(case):
     res = Result()
+    if case.get("escaped-term"):
+        check_escaped_terms(res)
+        return [r for _, recs in res.failures.values() for r in recs]
     if "method" in case:
         hays = load_haystacks() + [True, False, None]
         target = None
